@@ -571,7 +571,7 @@ class ExcludeRegionState(object):  # pylint: disable=too-many-instance-attribute
         """
         if (deltaE < 0):
             # retraction, record the amount to potentially recover later
-            return self.recordRetraction(
+            returnCommands = self.recordRetraction(
                 RetractionState(
                     originalCommand=cmd,
                     firmwareRetract=False,
@@ -579,6 +579,16 @@ class ExcludeRegionState(object):  # pylint: disable=too-many-instance-attribute
                     feedRate=self.feedRate
                 )
             )
+
+            if ((not returnCommands) and (not self.excluding)):
+                # The retraction was skipped because the filament is still retracted from a recovery
+                # that was excluded.  The printer's extruder position must still follow the file,
+                # otherwise the matching recovery would not push any filament.
+                returnCommands = [
+                    "G92 E{e}".format(e=formatNumber(self.position.E_AXIS.nativeToLogical()))
+                ]
+
+            return returnCommands
         elif (deltaE > 0):
             # recovery
             return self.recoverRetractionIfNeeded(cmd, True)
